@@ -836,3 +836,66 @@ Proof.
            (fun w Hw => match w return In w ws -> In (fst w, snd w) ws with (a, b) => fun H => H end Hw)
            Hin Hcov kss sched i t ks HK Ht Hks).
 Qed.
+
+(** ** Any table filled cell by cell (each cell once): instance of the write-once theorem.
+    [tgt] is the table a sequential initialisation produces, e.g. the 8 x 256 CRC-32 tables of
+    Util/Crc32Model.v flattened; the initialiser stores cell k := nth k tgt for k = 0, 1, ... *)
+Section AnyTable.
+  Variable tgt : list N.
+  Definition tbl_init : list N := repeat 0 (length tgt).
+  Definition tbl_ws : list (nat * N) := combine (seq 0 (length tgt)) tgt.
+
+  Lemma map_fst_combine {A B} (l1 : list A) (l2 : list B) :
+    length l1 = length l2 -> map fst (combine l1 l2) = l1.
+  Proof.
+    revert l2; induction l1 as [|a r IH]; intros [|b t] H; simpl in *; try discriminate; auto.
+    f_equal. apply IH. lia.
+  Qed.
+
+  Lemma tbl_nodup : NoDup (map fst tbl_ws).
+  Proof. unfold tbl_ws. rewrite map_fst_combine by (apply seq_length). apply seq_NoDup. Qed.
+
+  Lemma tbl_in w : In w tbl_ws -> (fst w < length tbl_init)%nat.
+  Proof.
+    intros H. unfold tbl_init. rewrite repeat_length.
+    destruct w as [k v]. apply in_combine_l in H. apply in_seq in H. simpl. lia.
+  Qed.
+
+  Lemma tbl_covers k : (k < length tbl_init)%nat -> exists v, In (k, v) tbl_ws.
+  Proof.
+    unfold tbl_init. rewrite repeat_length. intros H. exists (nth k tgt 0).
+    unfold tbl_ws.
+    assert (E : nth k (combine (seq 0 (length tgt)) tgt) (O, 0) = (k, nth k tgt 0)).
+    { rewrite combine_nth by (apply seq_length). rewrite seq_nth by exact H. reflexivity. }
+    rewrite <- E. apply nth_In. rewrite combine_length, seq_length. lia.
+  Qed.
+
+  Lemma tbl_target : apply_writes tbl_ws tbl_init = tgt.
+  Proof.
+    apply (nth_ext _ _ 0 0).
+    - rewrite apply_writes_length. unfold tbl_init. apply repeat_length.
+    - intros k Hk. rewrite apply_writes_length in Hk.
+      destruct (tbl_covers k Hk) as [v Hv].
+      rewrite (apply_writes_value tbl_ws tbl_init k v tbl_nodup Hv Hk).
+      unfold tbl_ws in Hv.
+      assert (Hk' : (k < length tgt)%nat) by (unfold tbl_init in Hk; rewrite repeat_length in Hk; exact Hk).
+      destruct (In_nth _ _ (O, 0) Hv) as [j [Hj Ej]].
+      rewrite combine_length, seq_length, Nat.min_id in Hj.
+      rewrite combine_nth in Ej by (apply seq_length). rewrite seq_nth in Ej by exact Hj.
+      inversion Ej; subst. reflexivity.
+  Qed.
+
+  Theorem lazy_init_any_table kss sched :
+    (forall ks, In ks kss -> forall k, In k ks -> (k < length tgt)%nat) ->
+    kss <> [] -> complete sched (users tbl_init tbl_ws kss) ->
+    let c := run sched (users tbl_init tbl_ws kss) in
+    table (fst c) = tgt /\ flag (fst c) = true /\
+    map (fun t => reads (fst t)) (snd c) = map (map (fun k => nth k tgt 0)) kss.
+  Proof.
+    intros HK NE HC.
+    assert (HK' : forall ks, In ks kss -> forall k, In k ks -> (k < length tbl_init)%nat).
+    { intros ks Hks k Hk. unfold tbl_init. rewrite repeat_length. apply (HK ks Hks k Hk). }
+    pose proof (lazy_init_idempotent tbl_init tbl_ws tbl_nodup tbl_in tbl_covers kss sched HK' NE HC) as H.
+    unfold target in H. rewrite tbl_target in H. exact H.
+  Qed.
+End AnyTable.
